@@ -1,55 +1,50 @@
-//! Association-list stand-in for `std::collections::HashMap`, used ONLY in Kani
-//! builds of the scratch copy (see /verif/DESIGN.md 2.2).  hashbrown's probing
-//! and `RandomState::new` (getrandom) cannot be executed symbolically by CBMC.
-//! Same signatures for the methods the crate uses on its binding tables:
-//! new / get / insert / clear / clone / contains_key / remove / len / is_empty.
-//! The crate never iterates these maps, so ordering is unobservable.
-#[derive(Debug, Clone, Default)]
+//! Loop-free association list standing in for `std::collections::HashMap`, used ONLY in
+//! Kani builds of the scratch copy (see /verif/DESIGN.md 2.2).  hashbrown's probing and
+//! `RandomState::new` (getrandom) cannot be executed symbolically by CBMC, and any loop here
+//! would be unwound at every (even unreachable) call site.  Capacity is 4 bindings, enough for
+//! every harness; exceeding it fails the check "verif_map capacity exceeded", which the driver
+//! reports as undecided, never as a violation.
+//! Same signatures as the methods the crate uses on its binding tables; the crate never
+//! iterates these maps, so ordering is unobservable.
+#[derive(Debug, Clone)]
 pub(crate) struct HashMap<K, V> {
-    items: Vec<(K, V)>,
+    e0: Option<(K, V)>,
+    e1: Option<(K, V)>,
+    e2: Option<(K, V)>,
+    e3: Option<(K, V)>,
 }
 
 impl<K: PartialEq, V> HashMap<K, V> {
-    pub(crate) fn new() -> Self { Self { items: Vec::new() } }
+    pub(crate) fn new() -> Self { Self { e0: None, e1: None, e2: None, e3: None } }
 
     pub(crate) fn get(&self, k: &K) -> Option<&V> {
-        let mut i = 0;
-        while i < self.items.len() {
-            if self.items[i].0 == *k { return Some(&self.items[i].1) }
-            i += 1;
-        }
+        if let Some((a, v)) = &self.e0 { if *a == *k { return Some(v) } }
+        if let Some((a, v)) = &self.e1 { if *a == *k { return Some(v) } }
+        if let Some((a, v)) = &self.e2 { if *a == *k { return Some(v) } }
+        if let Some((a, v)) = &self.e3 { if *a == *k { return Some(v) } }
         None
     }
 
     pub(crate) fn insert(&mut self, k: K, v: V) -> Option<V> {
-        let mut i = 0;
-        while i < self.items.len() {
-            if self.items[i].0 == k {
-                return Some(core::mem::replace(&mut self.items[i].1, v))
-            }
-            i += 1;
-        }
-        self.items.push((k, v));
-        None
+        if let Some((a, old)) = &mut self.e0 { if *a == k { return Some(core::mem::replace(old, v)) } }
+        if let Some((a, old)) = &mut self.e1 { if *a == k { return Some(core::mem::replace(old, v)) } }
+        if let Some((a, old)) = &mut self.e2 { if *a == k { return Some(core::mem::replace(old, v)) } }
+        if let Some((a, old)) = &mut self.e3 { if *a == k { return Some(core::mem::replace(old, v)) } }
+        if self.e0.is_none() { self.e0 = Some((k, v)); return None }
+        if self.e1.is_none() { self.e1 = Some((k, v)); return None }
+        if self.e2.is_none() { self.e2 = Some((k, v)); return None }
+        if self.e3.is_none() { self.e3 = Some((k, v)); return None }
+        panic!("verif_map capacity exceeded");
     }
 
     #[allow(unused)]
     pub(crate) fn contains_key(&self, k: &K) -> bool { self.get(k).is_some() }
-
     #[allow(unused)]
-    pub(crate) fn remove(&mut self, k: &K) -> Option<V> {
-        let mut i = 0;
-        while i < self.items.len() {
-            if self.items[i].0 == *k { return Some(self.items.remove(i).1) }
-            i += 1;
-        }
-        None
+    pub(crate) fn clear(&mut self) { self.e0 = None; self.e1 = None; self.e2 = None; self.e3 = None; }
+    #[allow(unused)]
+    pub(crate) fn len(&self) -> usize {
+        self.e0.is_some() as usize + self.e1.is_some() as usize + self.e2.is_some() as usize + self.e3.is_some() as usize
     }
-
     #[allow(unused)]
-    pub(crate) fn clear(&mut self) { self.items.clear() }
-    #[allow(unused)]
-    pub(crate) fn len(&self) -> usize { self.items.len() }
-    #[allow(unused)]
-    pub(crate) fn is_empty(&self) -> bool { self.items.is_empty() }
+    pub(crate) fn is_empty(&self) -> bool { self.len() == 0 }
 }
